@@ -63,6 +63,9 @@ ASSUMPTIONS = [
     'a variable named like the evaluator\'s own positional parameter '
     '("expr") is never supplied (a Python calling-convention clash, judged '
     'under C11)',
+    'an expression naming the unsupplied compile-time constant __debug__ '
+    'may either raise NameError (reference) or be refused with the error '
+    'class before anything is evaluated',
     'runtime errors of fully whitelisted expressions (NameError, TypeError, '
     'ZeroDivisionError) must match the reference interpreter by type only',
     'through WorkflowConfig only targeted side effects are watched (canary '
@@ -206,6 +209,8 @@ def setup_shard(ctx):
     import cylc.flow.task_outputs  # noqa: F401
     from vlib.gen import c11_taskgen as G
     G.quiet_logging()
+    import warnings
+    warnings.filterwarnings('ignore', category=SyntaxWarning)
     if not _HOOKED[0]:
         sys.addaudithook(_hook)
         _HOOKED[0] = True
@@ -741,6 +746,14 @@ def judge(ctx, label, W, evaluator, err_cls, text, env, entry, call,
         agrees_alt = (got[0] == alt[0] and (
             same(got[1], alt[1]) if got[0] == 'value'
             else type(got[1]) is type(alt[1])))
+        if (not agrees_plain and got[0] == 'raised'
+                and isinstance(got[1], err_cls) and not fired
+                and not suspicious):
+            # refusing the compile-time constant outright is as good as a
+            # NameError: nothing was evaluated
+            ctx.count('debug_name_rejected_unevaluated')
+            ctx.evaluated((label, text, entry), nontrivial=nnodes >= 3)
+            return
         if not agrees_plain and agrees_alt:
             ctx.violation(
                 'C24:accept:unsupplied-name-resolved:__debug__',
